@@ -289,12 +289,17 @@ theorem e_step_frame {s s' : St} {a : EAct} (hs : eStep s a = some s') :
       s'.own = s.own ∧ s'.thd = s.thd ∧ s'.spc = s.spc := by
   cases a <;> simp only [eStep] at hs <;> (try split at hs) <;> simp at hs <;> subst hs <;> simp
 
+theorem ginv_e {s s' : St} {a : EAct} (hw : GInv s) (hs : eStep s a = some s') : GInv s' := by
+  have ⟨g1, g2, g3, g4, g5, g6, g7, g8, g9, g10, g11⟩ := hw
+  cases a <;> simp only [eStep] at hs <;> (try split at hs) <;> simp at hs <;> subst hs <;>
+    exact ⟨g1, g2, g3, g4, g5, g6, g7, g8, g9, g10, g11⟩
+
 theorem inv_e {s s' : St} {a : EAct} (h : Inv s) (hs : eStep s a = some s') : Inv s' := by
   obtain ⟨hws, hts, htc, hdpc, hi, hsig, hff, hown, hthd, hspc⟩ := e_step_frame hs
   have hpc : ∀ j, pc s' j = pc s j := pc_congr hws
   have hfr : frontier s' = frontier s := by simp [frontier, hdpc, hi]
-  obtain ⟨⟨m1, m2, m3, m4, m5, m6, m7, m8, m9⟩, ⟨t1, t2⟩, ⟨f1, f2, f3, f4, f5, f6, f7, f8, f9, f10⟩⟩ := h
-  refine ⟨⟨?_, ?_, ?_, ?_, ?_, ?_, ?_, ?_, ?_⟩, ⟨?_, ?_⟩, ⟨?_, ?_, ?_, ?_, ?_, ?_, ?_, ?_, ?_, ?_⟩⟩
+  obtain ⟨⟨m1, m2, m3, m4, m5, m6, m7, m8, m9⟩, ⟨t1, t2⟩, ⟨f1, f2, f3, f4, f5, f6, f7, f8, f9, f10⟩, hwd⟩ := h
+  refine ⟨⟨?_, ?_, ?_, ?_, ?_, ?_, ?_, ?_, ?_⟩, ⟨?_, ?_⟩, ⟨?_, ?_, ?_, ?_, ?_, ?_, ?_, ?_, ?_, ?_⟩, ginv_e hwd hs⟩
   · rw [hown, hdpc]; exact m1
   · intro j; rw [hown, hpc]; exact m2 j
   · rw [hown, hspc]; exact m3
@@ -317,21 +322,360 @@ theorem inv_e {s s' : St} {a : EAct} (h : Inv s) (hs : eStep s a = some s') : In
   · rw [hdpc, hsig, htc, hws, hff]; exact f9
   · rw [hdpc, hsig, htc, hws]; exact f10
 
+/-! ## the watchdog (STALEID repair): its own steps, and `GInv` under every step -/
+
+theorem minv_g {s s' : St} {a : GAct} (hm : MInv s) (hw : GInv s) (hs : gStep s a = some s') : MInv s' := by
+  have ⟨h1, h2, h3, h4, h5, h6, h7, h8, h9⟩ := hm
+  cases a with
+  | wake =>
+    simp only [gStep] at hs
+    split at hs <;> simp at hs; subst hs
+    exact ⟨h1, h2, h3, h4, h5, h6, h7, h8, h9⟩
+  | lockT =>
+    simp only [gStep] at hs
+    split at hs <;> simp at hs; subst hs
+    rename_i ht _
+    have hnw : ∀ j, holdsT (pc s j) = false := by
+      intro j; cases hh : holdsT (pc s j) with
+      | false => rfl
+      | true => have := (h6 j).mpr hh; rw [ht] at this; cases this
+    have hns : s.spc.holdsT = false := by
+      cases hh : s.spc.holdsT with
+      | false => rfl
+      | true => have := h7 hh; rw [ht] at this; cases this
+    refine { ownD := h1, ownW := h2, ownS1 := h3, ownS2 := h4, thdD := ?_, thdW := ?_, thdS1 := ?_, thdS2 := ?_,
+             canc := h9 }
+    · simp
+    · intro j; show Own.g = Own.w j ↔ holdsT (pc s j) = true; simp [hnw j]
+    · intro hc; have hc' : s.spc.holdsT = true := hc; rw [hns] at hc'; cases hc'
+    · intro hc; cases hc
+  | unlockT =>
+    simp only [gStep] at hs
+    split at hs <;> simp at hs; subst hs
+    rename_i k hg
+    have ht : s.thd = .g := hw.thdG1 (by rw [hg]; rfl)
+    have hnw : ∀ j, holdsT (pc s j) = false := by
+      intro j; cases hh : holdsT (pc s j) with
+      | false => rfl
+      | true => have := (h6 j).mpr hh; rw [ht] at this; cases this
+    have hns : s.spc.holdsT = false := by
+      cases hh : s.spc.holdsT with
+      | false => rfl
+      | true => have := h7 hh; rw [ht] at this; cases this
+    refine { ownD := h1, ownW := h2, ownS1 := h3, ownS2 := h4, thdD := ?_, thdW := ?_, thdS1 := ?_, thdS2 := ?_,
+             canc := h9 }
+    · simp
+    · intro j; show Own.none = Own.w j ↔ holdsT (pc s j) = true; simp [hnw j]
+    · intro hc; have hc' : s.spc.holdsT = true := hc; rw [hns] at hc'; cases hc'
+    · intro hc; cases hc
+
+theorem tinv_g {s s' : St} {a : GAct} (ht : TInv s) (hs : gStep s a = some s') : TInv s' := by
+  rw [g_step_frame hs]; exact ⟨ht.len, ht.ok⟩
+
+theorem finv_g {s s' : St} {a : GAct} (hf : FInv s) (hs : gStep s a = some s') : FInv s' := by
+  have ⟨h1, h2, h3, h4, h5, h6, h7, h8, h9, h10⟩ := hf
+  rw [g_step_frame hs]; exact ⟨h1, h2, h3, h4, h5, h6, h7, h8, h9, h10⟩
+
+theorem ginv_g {s s' : St} {a : GAct} (hw : GInv s) (hs : gStep s a = some s') : GInv s' := by
+  have ⟨g1, g2, g3, g4, g5, g6, g7, g8, g9, g10, g11⟩ := hw
+  cases a with
+  | wake =>
+    simp only [gStep] at hs
+    split at hs <;> simp at hs; subst hs
+    rename_i hg
+    have hnc : s.gcan = false := by
+      cases hc : s.gcan with
+      | false => rfl
+      | true => exact absurd hg (g5 hc).1
+    have hsw : s.sw = true := by
+      cases hc : s.sw with
+      | true => rfl
+      | false => have := (g4 hc).1; rw [hg] at this; cases this
+    refine ⟨?_, ?_, g3, ?_, ?_, ?_, ?_, ?_, ?_, g10, g11⟩
+    · intro hc; dsimp only at hc; split at hc <;> simp [GPC.holds] at hc
+    · intro hc; have := g2 hc; rw [hg] at this; cases this
+    · intro hc; rw [hsw] at hc; cases hc
+    · intro hc; rw [hnc] at hc; cases hc
+    · intro hc; have := g6 hc; rw [hg] at this; cases this.2
+    · intro hc; dsimp only at hc; split at hc <;> cases hc
+    · intro _ hc; dsimp only at hc; split at hc <;> cases hc
+    · intro k hc; dsimp only at hc
+      split at hc
+      · rcases hc with hc | hc <;> cases hc; assumption
+      · rcases hc with hc | hc <;> cases hc
+  | lockT =>
+    simp only [gStep] at hs
+    split at hs <;> simp at hs; subst hs
+    rename_i k ht hg
+    have hsw : s.sw = true := by
+      cases hc : s.sw with
+      | true => rfl
+      | false => have := (g4 hc).1; rw [hg] at this; cases this
+    refine ⟨fun _ => rfl, fun _ => rfl, g3, ?_, ?_, ?_, ?_, ?_, ?_, g10, g11⟩
+    · intro hc; rw [hsw] at hc; cases hc
+    · intro hc; exact ⟨by simp, by simp, (g5 hc).2.2⟩
+    · intro hc; have := g6 hc; rw [hg] at this; cases this.2
+    · intro hc; cases hc
+    · intro _ hc; cases hc
+    · intro k' hc; rcases hc with hc | hc <;> cases hc
+      exact g9 k (Or.inl hg)
+  | unlockT =>
+    simp only [gStep] at hs
+    split at hs <;> simp at hs; subst hs
+    rename_i k hg
+    have hsw : s.sw = true := by
+      cases hc : s.sw with
+      | true => rfl
+      | false => have := (g4 hc).1; rw [hg] at this; cases this
+    have hk := g9 k (Or.inr hg)
+    refine ⟨?_, ?_, g3, ?_, ?_, ?_, ?_, ?_, ?_, g10, g11⟩
+    · intro hc; dsimp only at hc; split at hc <;> (try split at hc) <;> simp [GPC.holds] at hc
+    · intro hc; cases hc
+    · intro hc; rw [hsw] at hc; cases hc
+    · intro hc
+      have hc' : s.gcan = true := hc
+      refine ⟨?_, ?_, (g5 hc').2.2⟩ <;> dsimp only <;> split <;> simp
+    · intro hc; have := g6 hc; rw [hg] at this; cases this.2
+    · intro hc; dsimp only at hc
+      split at hc
+      · cases hc
+      · split at hc
+        · assumption
+        · cases hc
+    · intro _ hc; dsimp only at hc; split at hc <;> (try split at hc) <;> cases hc
+    · intro k' hc; dsimp only at hc
+      split at hc
+      · rcases hc with hc | hc <;> cases hc; assumption
+      · split at hc <;> rcases hc with hc | hc <;> cases hc
+
+theorem ginv_w {s s' : St} {i : Nat} {a : WAct} (hm : MInv s) (hw : GInv s) (hs : wStep s i a = some s') :
+    GInv s' := by
+  obtain ⟨p, q, ⟨hi, hpci, hn, hgT, hgO⟩, rfl⟩ := w_facts hs
+  have ⟨g1, g2, g3, g4, g5, g6, g7, g8, g9, g10, g11⟩ := hw
+  have ⟨tp, _⟩ := tbl_holdsT hn
+  have hthdI := hm.thdW i
+  rw [hpci] at hthdI
+  have e : ∀ x : St, (wEffect i x a).gpc = x.gpc ∧ (wEffect i x a).gcan = x.gcan ∧ (wEffect i x a).gjoin = x.gjoin ∧
+      (wEffect i x a).sw = x.sw ∧ (wEffect i x a).spc = x.spc ∧ (wEffect i x a).dpc = x.dpc ∧
+      (wEffect i x a).ts = x.ts := by intro x; cases a <;> simp [wEffect]
+  obtain ⟨e1, e2, e3, e4, e5, e6, e7⟩ := e { s with ws := s.ws.set i q, ts := s.ts.set i (wWrite s.g a p (tsAt s i)) }
+  refine ⟨?_, ?_, ?_, ?_, ?_, ?_, ?_, ?_, ?_, ?_, ?_⟩
+  · rw [e1]; intro hc
+    have ht := g1 hc
+    cases a with
+    | lockT => have := hgT rfl; rw [this] at ht; cases ht
+    | unlockT => have := hthdI.mpr (tp.mpr (Or.inr rfl)); rw [this] at ht; cases ht
+    | _ => exact ht
+  · rw [e1]; intro hc; apply g2
+    cases a with
+    | lockT => simp [wEffect] at hc
+    | unlockT => simp [wEffect] at hc
+    | _ => exact hc
+  · cases a with
+    | lock => simp [wEffect]
+    | unlock => simp [wEffect]
+    | _ => exact g3
+  · rw [e1, e2, e3, e4]; exact g4
+  · rw [e1, e2, e6]; exact g5
+  · rw [e1, e2, e3]; exact g6
+  · rw [e1, e2]; exact g7
+  · rw [e1, e4, e5]; exact g8
+  · rw [e1, e7]; simpa using g9
+  · rw [e3, e4, e5]; exact g10
+  · rw [e5, e6]; exact g11
+
+/-- the dispatcher's protocol operations proper leave the watchdog's bookkeeping alone, and are not taken while
+    dsh() is finishing, nor before the signals thread exists -/
+theorem d_plain_frame {s s' : St} {a : DAct}
+    (ha : a ≠ .createG ∧ a ≠ .createS ∧ a ≠ .cancelG ∧ a ≠ .joinG ∧ a ≠ .cancelS ∧ a ≠ .ret)
+    (hs : dStep s a = some s') :
+    s'.gpc = s.gpc ∧ s'.gcan = s.gcan ∧ s'.gjoin = s.gjoin ∧ s'.sw = s.sw ∧ s'.spc = s.spc ∧ s'.thd = s.thd ∧
+      s'.ts = s.ts ∧ (s'.own = s.own ∨ s'.own = .none ∨ s'.own = .d) ∧ s.dpc ≠ .finishing ∧ s.dpc ≠ .returned ∧
+      (s.dpc = .top ∨ s.dpc = .dtop → s.spc ≠ .off) := by
+  obtain ⟨a1, a2, a3, a4, a5, a6⟩ := ha
+  cases a <;> (first | exact absurd rfl a1 | exact absurd rfl a2 | exact absurd rfl a3 | exact absurd rfl a4 |
+      exact absurd rfl a5 | exact absurd rfl a6 | skip) <;>
+    simp only [dStep] at hs <;> (repeat' split at hs) <;> simp [roomTest, drainTest] at hs <;>
+    (try split at hs) <;> (try (obtain ⟨_, hs⟩ := hs)) <;> (try subst hs) <;> simp_all
+
+theorem ginv_d {s s' : St} {a : DAct} (hm : MInv s) (hw : GInv s) (hs : dStep s a = some s') : GInv s' := by
+  have ⟨g1, g2, g3, g4, g5, g6, g7, g8, g9, g10, g11⟩ := hw
+  by_cases ha : a ≠ .createG ∧ a ≠ .createS ∧ a ≠ .cancelG ∧ a ≠ .joinG ∧ a ≠ .cancelS ∧ a ≠ .ret
+  · obtain ⟨e1, e2, e3, e4, e5, e6, e7, e8, e9, e10, e11⟩ := d_plain_frame ha hs
+    have hnc : s.gcan = false := by
+      cases hc : s.gcan with
+      | false => rfl
+      | true => rcases (g5 hc).2.2 with h | h
+                · exact absurd h e9
+                · exact absurd h e10
+    have hns : s.spc ≠ .cancelled := by
+      intro hc; rcases hm.canc hc with h | h
+      · exact e9 h
+      · exact e10 h
+    have hnoff : s.spc ≠ .off := fun hc => e11 (g11 hc) hc
+    refine ⟨?_, ?_, ?_, ?_, ?_, ?_, ?_, ?_, ?_, ?_, ?_⟩
+    · rw [e1, e6]; exact g1
+    · rw [e1, e6]; exact g2
+    · rcases e8 with h | h | h <;> rw [h]
+      · exact g3
+      · simp
+      · simp
+    · rw [e1, e2, e3, e4]; exact g4
+    · rw [e2, hnc]; intro hc; cases hc
+    · rw [e1, e2, e3]; exact g6
+    · rw [e1, e2]; exact g7
+    · rw [e1, e4, e5]; exact g8
+    · rw [e1, e7]; exact g9
+    · rw [e5]; intro hc; exact absurd hc hns
+    · rw [e5]; intro hc; exact absurd hc hnoff
+  · cases a with
+    | createG =>
+      simp only [dStep] at hs
+      split at hs <;> (try split at hs) <;> simp at hs; subst hs
+      rename_i hg hsp hsw
+      have hnc : s.gcan = false := by
+        cases hc : s.gcan with
+        | false => rfl
+        | true => exact absurd hg (g5 hc).2.1
+      have hnj : s.gjoin = false := by
+        cases hc : s.gjoin with
+        | false => rfl
+        | true => have := (g6 hc).1; rw [hnc] at this; cases this
+      have hnt : s.thd ≠ .g := by intro hc; have := g2 hc; rw [hg] at this; cases this
+      refine ⟨?_, ?_, g3, ?_, ?_, ?_, ?_, ?_, ?_, ?_, g11⟩
+      · intro hc; dsimp only at hc; split at hc <;> simp [GPC.holds] at hc
+      · intro hc; exact absurd hc hnt
+      · intro hc; have hc' : s.sw = false := hc; rw [hsw] at hc'; cases hc'
+      · intro hc; have hc' : s.gcan = true := hc; rw [hnc] at hc'; cases hc'
+      · intro hc; have hc' : s.gjoin = true := hc; rw [hnj] at hc'; cases hc'
+      · intro hc; dsimp only at hc; split at hc <;> cases hc
+      · intro _ hc; dsimp only at hc; split at hc <;> cases hc
+      · intro k hc; dsimp only at hc
+        split at hc
+        · rcases hc with hc | hc <;> cases hc; assumption
+        · rcases hc with hc | hc <;> cases hc
+      · intro hc; have hc' : s.spc = .cancelled := hc; rw [hsp] at hc'; cases hc'
+    | createS =>
+      simp only [dStep] at hs
+      split at hs <;> (try split at hs) <;> simp at hs; subst hs
+      rename_i hsp hgd
+      refine ⟨g1, g2, g3, g4, g5, g6, g7, ?_, g9, ?_, ?_⟩
+      · intro h1 h2; exact absurd ⟨h1, h2⟩ hgd
+      · intro hc; cases hc
+      · intro hc; cases hc
+    | cancelG =>
+      simp only [dStep] at hs
+      split at hs <;> (try split at hs) <;> simp at hs; subst hs
+      rename_i hd hg
+      obtain ⟨hsw, hnc⟩ := hg
+      have hnoff : s.gpc ≠ .off := by
+        intro hc
+        rcases g11 (g8 hsw hc) with h | h <;> rw [hd] at h <;> cases h
+      refine ⟨?_, ?_, g3, ?_, ?_, ?_, ?_, ?_, ?_, g10, g11⟩
+      · intro hc; apply g1; dsimp only at hc; split at hc
+        · simp [GPC.holds] at hc
+        · exact hc
+      · intro hc; have := g2 hc; dsimp only
+        split
+        · rename_i hsl; rw [hsl] at this; cases this
+        · exact this
+      · intro hc; have hc' : s.sw = false := hc; rw [hsw] at hc'; cases hc'
+      · intro _; refine ⟨?_, ?_, Or.inl hd⟩ <;> dsimp only <;> split <;> simp_all
+      · intro hc; have hc' : s.gjoin = true := hc; have := (g6 hc').1; rw [hnc] at this; cases this
+      · intro _; rfl
+      · intro _ hc; dsimp only at hc; split at hc
+        · cases hc
+        · exact absurd hc hnoff
+      · intro k hc; apply g9 k; dsimp only at hc; split at hc
+        · rcases hc with hc | hc <;> cases hc
+        · exact hc
+    | joinG =>
+      simp only [dStep] at hs
+      split at hs <;> (try split at hs) <;> simp at hs; subst hs
+      rename_i hd hg
+      obtain ⟨hc1, hc2, hc3⟩ := hg
+      have hsw : s.sw = true := by
+        cases hc : s.sw with
+        | true => rfl
+        | false => have := (g4 hc).2.1; rw [hc1] at this; cases this
+      refine ⟨g1, g2, g3, ?_, g5, fun _ => ⟨hc1, hc2⟩, g7, g8, g9, fun _ _ => rfl, g11⟩
+      intro hc; have hc' : s.sw = false := hc; rw [hsw] at hc'; cases hc'
+    | cancelS =>
+      simp only [dStep] at hs
+      split at hs <;> (try split at hs) <;> simp at hs; subst hs
+      rename_i hd hg
+      refine ⟨g1, g2, g3, g4, g5, g6, g7, ?_, g9, ?_, ?_⟩
+      · intro h1 h2
+        rcases g11 (g8 h1 h2) with h | h <;> rw [hd] at h <;> cases h
+      · intro _ hsw
+        cases hj : s.gjoin with
+        | true => rfl
+        | false => exact absurd (Or.inr ⟨hsw, hj⟩) hg
+      · intro hc; cases hc
+    | ret =>
+      simp only [dStep] at hs
+      split at hs <;> (try split at hs) <;> simp at hs; subst hs
+      rename_i hd hc
+      refine ⟨g1, g2, g3, g4, ?_, g6, g7, g8, g9, g10, ?_⟩
+      · intro h; have := g5 h; exact ⟨this.1, this.2.1, Or.inr rfl⟩
+      · intro h; have h' : s.spc = .off := h; rw [hc] at h'; cases h'
+    | lock | wait | wake _ | relock | create _ | unlock => exact absurd (by simp) ha
+
+/-- what a step of the signals thread does to the mutexes and to its own program counter, in general -/
+theorem s_step_ctl {s s' : St} {a : SAct} (hs : sStep s a = some s') :
+    s'.gpc = s.gpc ∧ s'.gcan = s.gcan ∧ s'.gjoin = s.gjoin ∧ s'.sw = s.sw ∧
+    s.spc ≠ .off ∧ s'.spc ≠ .off ∧ s'.spc ≠ .cancelled ∧
+    (s'.thd = s.thd ∨ (s.thd = .none ∧ s'.thd = .s) ∨ (s.spc.holdsT = true ∧ s'.thd = .none)) ∧
+    (s'.own = s.own ∨ s'.own = .s ∨ s'.own = .none) := by
+  cases a <;> simp only [sStep] at hs <;> (repeat' split at hs) <;> simp at hs <;>
+    (try (obtain ⟨_, hs⟩ := hs)) <;> (try subst hs) <;> simp_all [SPC.holdsT] <;> (try (split <;> simp))
+
+theorem ginv_s {s s' : St} {a : SAct} (hm : MInv s) (hw : GInv s) (hs : sStep s a = some s') : GInv s' := by
+  have ⟨g1, g2, g3, g4, g5, g6, g7, g8, g9, g10, g11⟩ := hw
+  obtain ⟨e1, e2, e3, e4, hnoff, hnoff', hnc', hthd, hown⟩ := s_step_ctl hs
+  obtain ⟨_, _, hdpc, _, _, _, hts⟩ := s_step_frame hs
+  have hlen : s'.ts.length = s.ts.length := by rcases hts with h | ⟨_, h⟩ <;> rw [h]; simp
+  refine ⟨?_, ?_, ?_, ?_, ?_, ?_, ?_, ?_, ?_, ?_, ?_⟩
+  · rw [e1]; intro hc
+    have ht := g1 hc
+    rcases hthd with h | ⟨h, _⟩ | ⟨h, _⟩
+    · rw [h]; exact ht
+    · rw [h] at ht; cases ht
+    · have := hm.thdS1 h; rw [this] at ht; cases ht
+  · rw [e1]; intro hc; apply g2
+    rcases hthd with h | ⟨_, h⟩ | ⟨_, h⟩
+    · rw [← h]; exact hc
+    · rw [h] at hc; cases hc
+    · rw [h] at hc; cases hc
+  · rcases hown with h | h | h <;> rw [h]
+    · exact g3
+    · simp
+    · simp
+  · rw [e1, e2, e3, e4]; exact g4
+  · rw [e1, e2, hdpc]; exact g5
+  · rw [e1, e2, e3]; exact g6
+  · rw [e1, e2]; exact g7
+  · rw [e1, e4]; intro h1 h2; exact absurd (g8 h1 h2) hnoff
+  · rw [e1, hlen]; exact g9
+  · intro hc; exact absurd hc hnc'
+  · intro hc; exact absurd hc hnoff'
+
 /-! ## every step -/
 
 theorem inv_step {s s' : St} {l : Label} (h : Inv s) (hs : step s l = some s') : Inv s' := by
   cases l with
-  | d a => have hd := step_d hs; exact ⟨minv_d h.m h.f hd, tinv_d h.t h.f hd, finv_d h.m h.t h.f hd⟩
-  | w i a => have hd := step_w hs; exact ⟨minv_w h.m hd, tinv_w h.t hd, finv_w h.m h.t h.f hd⟩
-  | s a => have hd := step_s hs; exact ⟨minv_s h.m hd, tinv_s h.t hd, finv_s h.t h.f hd⟩
+  | d a => have hd := step_d hs; exact ⟨minv_d h.m h.f hd, tinv_d h.t h.f hd, finv_d h.m h.t h.f hd, ginv_d h.m h.w hd⟩
+  | w i a => have hd := step_w hs; exact ⟨minv_w h.m hd, tinv_w h.t hd, finv_w h.m h.t h.f hd, ginv_w h.m h.w hd⟩
+  | s a => have hd := step_s hs; exact ⟨minv_s h.m hd, tinv_s h.t hd, finv_s h.t h.f hd, ginv_s h.m h.w hd⟩
   | e a => exact inv_e h (step_e hs)
+  | g a => have hd := step_wd hs; exact ⟨minv_g h.m h.w hd, tinv_g h.t hd, finv_g h.f hd, ginv_g h.w hd⟩
 
 theorem inv_exec {s0 s : St} {ls : List Label} (h0 : Inv s0) (he : Exec s0 ls s) : Inv s := by
   induction he with
   | nil => exact h0
   | snoc _ hs ih => exact inv_step ih hs
 
-theorem inv_reach {v g f n b t0 s} (h : Reach v g f n b t0 s) : Inv s := by
-  obtain ⟨ls, he⟩ := h; exact inv_exec (inv_init v g f n b t0) he
+theorem inv_reach {v g sw f n b t0 s} (h : Reach v g sw f n b t0 s) : Inv s := by
+  obtain ⟨ls, he⟩ := h; exact inv_exec (inv_init v g sw f n b t0) he
 
 end PdshVerif.Dsh.Sig
